@@ -176,3 +176,31 @@ void bad_rhs_shape__other_multiplier(fp_t c0, const fp_t c1, const fp_t u) {
 	fp_mul(c0, c0, u);
 	fp_add(c0, c0, ctx->ep_b);
 }
+
+/* INV-GUARD */
+void ok_inv_guard__st_map_sswu(ep_t p, const fp_t t) {
+	fp_t t0, t2, t3;
+	fp_sqr(t0, t);
+	fp_add(t2, t0, t);
+	{
+		const int e1 = fp_is_zero(t2);
+		fp_neg(t3, t);
+		fp_copy_sec(t2, t3, e1);
+		fp_inv(t2, t2);
+	}
+	fp_copy(p->x, t2);
+}
+
+/* the flag is the zero test of another value: the vanishing denominator goes into the inversion */
+void bad_inv_guard__other_flag__st_map_sswu(ep_t p, const fp_t t) {
+	fp_t t0, t2, t3;
+	fp_sqr(t0, t);
+	fp_add(t2, t0, t);
+	{
+		const int e1 = fp_is_zero(t0);
+		fp_neg(t3, t);
+		fp_copy_sec(t2, t3, e1);
+		fp_inv(t2, t2);
+	}
+	fp_copy(p->x, t2);
+}
